@@ -6,23 +6,24 @@ import (
 	"go/types"
 	"sort"
 	"strings"
+	"sync"
 )
 
 // Obligation is one named proof obligation: lines[:prefix] /\ guard /\ not goal  must be unsat
 // (or, for a cover, lines[:prefix] /\ guard must be sat).
 type Obligation struct {
-	Name   string
-	Kind   string // post, call-pre, inv-init, inv-pres, safety, frame, lockinv, guard, cover, lemma
-	Fn     string
-	Props  []string
-	prefix int
-	guard  *Term
-	goal   *Term
+	Name     string
+	Kind     string // post, call-pre, inv-init, inv-pres, safety, frame, lockinv, guard, cover, lemma
+	Fn       string
+	Props    []string
+	prefix   int
+	guard    *Term
+	goal     *Term
 	unsliced bool
-	Cover  bool
-	Pos    token.Position
-	Note   string
-	AutoID string
+	Cover    bool
+	Pos      token.Position
+	Note     string
+	AutoID   string
 	// result
 	Result  string // unsat, sat, unknown, timeout, error
 	Solver  string
@@ -33,34 +34,36 @@ type Obligation struct {
 
 // VC accumulates declarations, assumptions and obligations for one function under contract.
 type VC struct {
-	eng       *Engine
-	tparams   map[string]types.Type
-	defAt     map[int]string
-	wmSyms    map[string]bool
-	sliceIx   *sliceIndex
-	noSlice   bool
-	fnName    string
-	sortDecls []string
-	sortSeen  map[string]string
-	decls     []string
-	declSeen  map[string]bool
-	axioms    []string
-	lines     []string
-	obls      []*Obligation
-	n         int
-	allocN    int
-	compSort  map[string]string
-	strLits   map[string]*Term
-	closures  map[*Term]*closureInfo
-	queries   map[*Term]*linqQuery
+	eng         *Engine
+	tparams     map[string]types.Type
+	defAt       map[int]string
+	wmSyms      map[string]bool
+	sliceIx     *sliceIndex
+	noSlice     bool
+	fnName      string
+	sortDecls   []string
+	sortOrdered []string
+	sortOrderMu sync.Mutex
+	sortSeen    map[string]string
+	decls       []string
+	declSeen    map[string]bool
+	axioms      []string
+	lines       []string
+	obls        []*Obligation
+	n           int
+	allocN      int
+	compSort    map[string]string
+	strLits     map[string]*Term
+	closures    map[*Term]*closureInfo
+	queries     map[*Term]*linqQuery
 	assumptions map[string]bool // assumed/trusted items touched (for evidence)
 	unsupported []string
-	instN     int
+	instN       int
 	atomicField map[string]*atomicFieldRef
-	pure      int
-	qf        bool
-	rawPrelude string // when set, the obligation is rendered over this prelude only (table lemmas)
-	lastFilter *filterWitness
+	pure        int
+	qf          bool
+	rawPrelude  string // when set, the obligation is rendered over this prelude only (table lemmas)
+	lastFilter  *filterWitness
 }
 
 func newVC(eng *Engine, fn string) *VC {
@@ -655,6 +658,66 @@ func (vc *VC) markDef(nm string) {
 	vc.defAt[len(vc.lines)] = nm
 }
 
+// orderedSortDecls: the sort declarations in an order that does not depend on which Go type the generator happened
+// to meet first (dependencies first, then by name), so that a query's text is the same on every run.
+func (vc *VC) orderedSortDecls() []string {
+	vc.sortOrderMu.Lock()
+	defer vc.sortOrderMu.Unlock()
+	if len(vc.sortOrdered) == len(vc.sortDecls) {
+		return vc.sortOrdered
+	}
+	const fixed = 3
+	rest := append([]string{}, vc.sortDecls[fixed:]...)
+	sort.Strings(rest)
+	names := make([]string, len(rest))
+	for i, d := range rest {
+		// (declare-datatypes ((NAME 0)) ...  |  (declare-sort NAME 0)
+		t := strings.TrimPrefix(strings.TrimPrefix(d, "(declare-datatypes (("), "(declare-sort ")
+		if strings.HasPrefix(t, "|") {
+			names[i] = t[:strings.Index(t[1:], "|")+2]
+		} else {
+			names[i] = t[:strings.IndexAny(t, " )")]
+		}
+	}
+	deps := make([][]int, len(rest))
+	for i, d := range rest {
+		for j, n := range names {
+			if i != j && (strings.Contains(d, " "+n+")") || strings.Contains(d, " "+n+" ")) {
+				deps[i] = append(deps[i], j)
+			}
+		}
+	}
+	out := append([]string{}, vc.sortDecls[:fixed]...)
+	done := make([]bool, len(rest))
+	for n := 0; n < len(rest); {
+		progressed := false
+		for i := range rest {
+			if done[i] {
+				continue
+			}
+			ready := true
+			for _, j := range deps[i] {
+				if !done[j] {
+					ready = false
+				}
+			}
+			if ready {
+				done[i] = true
+				out = append(out, rest[i])
+				n++
+				progressed = true
+				break
+			}
+		}
+		if !progressed {
+			// cannot happen (Go struct types are not recursive by value); keep the generator's order
+			return vc.sortDecls
+		}
+	}
+	vc.sortOrdered = out
+	return out
+}
+
 func (vc *VC) render(o *Obligation, logic string) string {
 	if vc.rawPrelude != "" {
 		return "; obligation " + o.Name + "\n" + vc.rawPrelude + "(assert (not " + o.goal.String() + "))\n(check-sat)\n"
@@ -668,7 +731,7 @@ func (vc *VC) render(o *Obligation, logic string) string {
 	if logic != "" {
 		b.WriteString("(set-logic " + logic + ")\n")
 	}
-	for _, d := range vc.sortDecls {
+	for _, d := range vc.orderedSortDecls() {
 		b.WriteString(d + "\n")
 	}
 	for _, d := range vc.decls {
@@ -693,8 +756,8 @@ func (vc *VC) render(o *Obligation, logic string) string {
 
 // atomicFieldRef describes the address of a field inside an atomic struct cell.
 type atomicFieldRef struct {
-	parent *Term           // address of the enclosing struct (itself possibly a field of an atomic struct)
-	ptype  types.Type      // type of the enclosing struct
+	parent *Term      // address of the enclosing struct (itself possibly a field of an atomic struct)
+	ptype  types.Type // type of the enclosing struct
 	idx    int
 	up     *atomicFieldRef // non-nil when parent is itself a field inside an atomic struct
 }
